@@ -390,6 +390,7 @@ def check(ctx, R):
     R.run("C01.g", lambda R, c: c02.rule_a(R, c, "C01.g.frontier"), ctx)
     R.run("C01.g", lambda R, c: c02.rule_b2(R, c, "C01.g.missing"), ctx)
     R.run("C01.g", lambda R, c: c02.rule_g(R, c, "C01.g.dependency"), ctx)
+    R.run("C01.g", lambda R, c: c02.rule_h(R, c, "C01.g.cached-frontier"), ctx)
     from . import c06
     R.run("C01.h", lambda R, c: c06.rule_g(R, c, "C01.h.first-block"), ctx)
     R.run("C01.h", lambda R, c: c06.rule_h(R, c, "C01.h.offset-arms"), ctx)
